@@ -32,6 +32,8 @@ TP_META = "reamber.osu.OsuTimingPointMeta.OsuTimingPointMeta"
 
 
 # --------------------------------------------------------------------------- R1
+from .. import emit as EM
+
 def _resolver(M, mod, cls=None):
     def resolve_call(f):
         if isinstance(f, ast.Name):
@@ -788,14 +790,11 @@ def rule_r6(ctx) -> List[R.Inst]:
             idx[n.targets[0].id] = (C.const_str(n.value.args[0]), n)
     if len(idx) != 2:
         return [R.undec("C01.R6", "sections", file, rfn.node.lineno, f"expected two section markers, found {len(idx)}")]
-    # writer: literal lines appended, in order
-    wl = []
-    for n in walk_no_nested(wfn.node):
-        if isinstance(n, ast.Call) and isinstance(n.func, ast.Attribute) and n.func.attr == "append" and n.args \
-                and C.const_str(n.args[0]) is not None:
-            wl.append((n.lineno, C.const_str(n.args[0]).strip()))
-    wl.sort()
-    wtexts = [t for _, t in wl]
+    # writer: literal lines emitted, in order (append / extend / list display / helpers: sa/emit.py)
+    items = EM.emission(M, wfn)
+    if items is None:
+        return [R.undec("C01.R6", "sections", file, wfn.node.lineno, "OsuMap.write is not a recognised list-building writer")]
+    wtexts = [C.const_str(i.expr).strip() for i in items if i.kind == "one" and C.const_str(i.expr) is not None]
     # reader slices
     calls = []
     for n in walk_no_nested(rfn.node):
@@ -869,7 +868,10 @@ def rule_r6(ctx) -> List[R.Inst]:
                 return C.self_attr(n.args[0]), n
         return None, None
     rk, rn = keys_field(M.fn(OSUMAP + "._read_file_hit_objects"))
-    wk, wn = keys_field(wfn)
+    wk, wn = None, None
+    for f_ in EM.helper_closure(M, wfn):
+        if wk is None:
+            wk, wn = keys_field(f_)
     if rk and wk:
         if rk == wk:
             insts.append(R.ok("C01.R6", "key-count-field", file, rn.lineno, idiom=f"both use int(self.{rk})"))
@@ -891,10 +893,11 @@ def rule_r7(ctx) -> List[R.Inst]:
     slots = list(M.map_slots(OSUMAP))
     written = set()
     for q in (OSUMAP + ".write", WRITE_META):
-        for n in walk_no_nested(M.fn(q).node):
-            a = C.self_attr(n)
-            if a:
-                written.add(a)
+        for f_ in EM.helper_closure(M, M.fn(q)):
+            for n in walk_no_nested(f_.node):
+                a = C.self_attr(n)
+                if a:
+                    written.add(a)
     assigned = set()
     for q in (OSUMAP + "._read_file_timing_points", OSUMAP + "._read_file_hit_objects", READ_META):
         for n in walk_no_nested(M.fn(q).node):
